@@ -120,14 +120,19 @@ def extraction_cross_check(ctx, po: dict) -> None:
 # (coq/tie/*Tie.v: the translated source and the hand-written model are in lock step for every history
 # of calls) are re-proved against the fresh translation.
 TIES = {
-    "lookup_enc": {"sources": ["pyjelly/serialize/lookup.py"], "gen": "LookupEncGen", "tie": "LookupEncTie",
+    "lookup_enc": {"sources": ["pyjelly/serialize/lookup.py"], "gen": "LookupEncGen", "tie": "LookupEncTie", "needs": [],
                    "theorems": ["source_writer_is_model"]},
-    "lookup_dec": {"sources": ["pyjelly/parse/lookup.py"], "gen": "LookupDecGen", "tie": "LookupDecTie",
+    "lookup_dec": {"sources": ["pyjelly/parse/lookup.py"], "gen": "LookupDecGen", "tie": "LookupDecTie", "needs": [],
                    "theorems": ["source_reader_is_model", "tie_init_decoder_too_large"]},
-    "hint": {"sources": ["pyjelly/parse/ioutils.py"], "gen": "HintGen", "tie": "HintTie", "theorems": ["source_hint_is_model"]},
-    "options": {"sources": ["pyjelly/options.py", "pyjelly/jelly/rdf_pb2.py"], "gen": "OptionsGen", "tie": "OptionsTie",
+    "hint": {"sources": ["pyjelly/parse/ioutils.py"], "gen": "HintGen", "tie": "HintTie", "needs": [], "theorems": ["source_hint_is_model"]},
+    "options": {"sources": ["pyjelly/options.py", "pyjelly/jelly/rdf_pb2.py"], "gen": "OptionsGen", "tie": "OptionsTie", "needs": [],
                 "theorems": ["source_preset_is_model", "source_type_compat_is_model", "source_stream_types_is_model",
                              "source_params_version_is_model"]},
+    # the translation of encode.py calls the translated lookup classes and LookupPreset, and its tie proofs use
+    # the lookup tie's lemmas: those are regenerated and re-proved first ("needs")
+    "encode": {"sources": ["pyjelly/serialize/encode.py"], "gen": "EncodeGen", "tie": "EncodeTie", "needs": ["lookup_enc", "options"],
+               "theorems": ["source_split_iri_is_model", "source_term_encoder_init_is_model", "source_start_statement_is_model",
+                            "source_encode_iri_indices_is_model"]},
 }
 
 
@@ -146,25 +151,32 @@ def _one_tie(unit: str, t: dict, repo: str) -> dict:
 
     res = {"unit": unit, "broken": None, "lines": 0}
     tmpd = tempfile.mkdtemp(prefix="verif_tie_")
+    os.mkdir(f"{tmpd}/gen")
+    os.mkdir(f"{tmpd}/tie")
+    q = f"-Q model PJ.Model -Q tie PJ.Tie -Q {tmpd}/tie PJ.Tie -Q {tmpd}/gen PJ.Gen"
     try:
-        p = subprocess.run([sys.executable, str(VERIF / "translate" / "py2v.py"), repo, unit], capture_output=True, text=True, timeout=120)
-        if p.returncode != 0:
-            res["broken"] = (f"source tie {unit}: the translator cannot read {', '.join(t['sources'])} any more ({p.stderr.strip()[-300:]}); "
-                             f"theorems {t['theorems']} of coq/tie/{t['tie']}.v are not re-proved")
-            return res
-        gen_text = p.stdout
-        res["lines"] = len(gen_text.splitlines())
-        if FORBIDDEN.search(strip_comments(gen_text)):
-            res["broken"] = f"source tie {unit}: forbidden construct in the generated file"
-            return res
-        (Path(tmpd) / f"{t['gen']}.v").write_text(gen_text)
-        cmd = (f"cd {VERIF}/coq && timeout 600 coqc -Q tie PJ.Tie -Q {tmpd} PJ.Gen {tmpd}/{t['gen']}.v && "
-               f"timeout 600 coqc -Q model PJ.Model -Q tie PJ.Tie -Q {tmpd} PJ.Gen -o {tmpd}/{t['tie']}.vo tie/{t['tie']}.v")
-        rc, out = sh(cmd, timeout=1300)
-        closed = out.count("Closed under the global context")
-        if rc != 0 or closed != len(t["theorems"]) or "Axioms:" in out:
-            res["broken"] = (f"source tie {unit}: coq/tie/{t['tie']}.v no longer proves {t['theorems']} against the translation of "
-                             f"{', '.join(t['sources'])} (the source and the model are not shown to be in lock step): {out[-500:]}")
+        chain = [(n, TIES[n]) for n in t["needs"]] + [(unit, t)]
+        for u, tu in chain:
+            p = subprocess.run([sys.executable, str(VERIF / "translate" / "py2v.py"), repo, u], capture_output=True, text=True, timeout=120)
+            if p.returncode != 0:
+                res["broken"] = (f"source tie {unit}: the translator cannot read {', '.join(tu['sources'])} any more ({p.stderr.strip()[-300:]}); "
+                                 f"theorems {t['theorems']} of coq/tie/{t['tie']}.v are not re-proved")
+                return res
+            gen_text = p.stdout
+            if u == unit:
+                res["lines"] = len(gen_text.splitlines())
+            if FORBIDDEN.search(strip_comments(gen_text)):
+                res["broken"] = f"source tie {unit}: forbidden construct in the generated file"
+                return res
+            (Path(tmpd) / "gen" / f"{tu['gen']}.v").write_text(gen_text)
+            cmd = (f"cd {VERIF}/coq && timeout 600 coqc {q} {tmpd}/gen/{tu['gen']}.v && "
+                   f"timeout 600 coqc {q} -o {tmpd}/tie/{tu['tie']}.vo tie/{tu['tie']}.v")
+            rc, out = sh(cmd, timeout=1300)
+            closed = out.count("Closed under the global context")
+            if rc != 0 or closed != len(tu["theorems"]) or "Axioms:" in out:
+                res["broken"] = (f"source tie {unit}: coq/tie/{tu['tie']}.v no longer proves {tu['theorems']} against the translation of "
+                                 f"{', '.join(tu['sources'])} (the source and the model are not shown to be in lock step): {out[-500:]}")
+                return res
         return res
     finally:
         shutil.rmtree(tmpd, ignore_errors=True)
